@@ -4,7 +4,8 @@ from gsa.facts import Unit, rel, AnalysisBroken
 from gsa.report import Check
 
 UNITS = [Unit('mx_pat', 'matrix_pat.cpp', ['src/Zigzag_persistence/include/gudhi/zigzag_persistence.h',
-                                          'src/Zigzag_persistence/include/gudhi/filtered_zigzag_persistence.h'],
+                                          'src/Zigzag_persistence/include/gudhi/filtered_zigzag_persistence.h',
+                                          'src/Persistence_matrix/include/gudhi/Persistence_matrix/Chain_matrix.h'],
               no_inst=True)]
 HF = 'src/Zigzag_persistence/include/gudhi/filtered_zigzag_persistence.h'
 H = 'src/Zigzag_persistence/include/gudhi/zigzag_persistence.h'
@@ -72,6 +73,62 @@ def run_arrow_order(chk, F):
             f.get('clsname'), f['name']), '%s:%d' % (HF, f['line']), bad is None, bad or '',
             key='E2|%s::%s|arrow-order' % (f.get('clsname'), f['name']))
     chk.expect_count('E2-arrow-order', 'insert_cell / remove_cell of the filtered front-ends', n, 4)
+
+
+def run_zero_length(chk, F):
+    """E9-zero-length: the filtered front-ends omit *only* zero-length intervals. The filtration values may increase or
+    decrease along the sequence, so the test deciding whether an interval is reported is evaluated on the three
+    relations of its two end values: reported for birth < death and for birth > death, omitted for equal values.
+    Streaming class: the guard of the stream_interval call; storing class: the sequence `if (birth > death) swap;
+    if (death - birth > shortestInterval)` with the default threshold 0."""
+    from gsa import predeval
+    fns = [f for f in F.functions if f['file'].endswith('filtered_zigzag_persistence.h') and f.get('body') is not None
+           and f['inst'] in (0, 2)]
+    n = 0
+    # (a) streaming class: a lambda in the constructor's initialiser calls stream_interval under a guard
+    for f in fns:
+        roots = [f.get('body')] + [i.get('init') for i in (f.get('inits') or []) if i.get('init') is not None]
+        for root in roots:
+            for x in ir.walk(root):
+                if x.get('k') != 'IfStmt':
+                    continue
+                calls = [y for y in ir.walk(x.get('then')) if ir.is_call(y) and 'stream_interval' in
+                         ir.show(ir.callee_expr(y) or {})]
+                if not calls:
+                    continue
+                args = [ir.show(a) for a in ir.call_args(calls[0])]
+                if calls[0].get('k') == 'CXXOperatorCallExpr':
+                    args = args[1:]
+                if len(args) < 3:
+                    raise AnalysisBroken('C07: stream_interval call of unexpected arity')
+                b, d = args[-2], args[-1]
+                n += 1
+                res = {}
+                for r in ('lt', 'eq', 'gt'):
+                    def oracle(e, env, r=r, b=b, d=d):
+                        if e.get('k') in ('BinaryOperator', 'CXXOperatorCallExpr') and e.get('op') in (
+                                '<', '>', '<=', '>=', '==', '!='):
+                            cs = [ir.show(c) for c in (e.get('c') or [])[-2:]]
+                            if cs == [b, d] or cs == [d, b]:
+                                c_ = {'lt': -1, 'eq': 0, 'gt': 1}[r]
+                                if cs == [d, b]:
+                                    c_ = -c_
+                                return {'<': c_ < 0, '>': c_ > 0, '<=': c_ <= 0, '>=': c_ >= 0, '==': c_ == 0,
+                                        '!=': c_ != 0}[e['op']]
+                        return None
+                    try:
+                        res[r] = predeval.Evaluator(oracle).truth(x.get('cond'))
+                    except predeval.Unknown as ex:
+                        raise AnalysisBroken('C07: the guard of stream_interval has a shape the evaluator does not '
+                                             'know: %s' % ex)
+                ok = res == {'lt': True, 'eq': False, 'gt': True}
+                chk.ob('E9-zero-length', '%s: an interval is streamed exactly when its two end values differ'
+                       % f['name'], '%s:%s' % (HF, x.get('l')), ok,
+                       '' if ok else 'the guard `%s` is %s for birth < death, %s for equal values, %s for birth > death'
+                       ' (a decreasing sequence of values gives birth > death)' % (ir.show(x.get('cond')), res['lt'],
+                                                                                   res['eq'], res['gt']),
+                       key='E9|%s|zero-length' % f['name'])
+    chk.expect_count('E9-zero-length', 'guards of stream_interval', n, 1)
 
 
 def run_frontier(chk, F):
@@ -191,5 +248,10 @@ def run(tier, replay=None):
            key='E2n|diamond|uses-ordering')
     run_arrow_order(chk, F)
     run_frontier(chk, F)
+    run_zero_length(chk, F)
+    # intervals are labelled with the dimension the chain matrix stored for the cell: a dimension given at insertion
+    # is kept (rule shared with C05)
+    from rules import c05
+    c05.run_dimension_overwrite(chk, F, min_count=1)
     chk.assumptions += ['clang 14 parser', 'births_[k] = v creates a key, births_.at(k) = v updates one']
     return chk
